@@ -44,7 +44,7 @@ theorem identity_preserved (entry : Entry) (chain : List Frame) (p : Payload) (v
 /-- Even when some frame swallows the exception: what every catch block received, and the reason every async
 function's promise was rejected with, is `v` itself. -/
 theorem catch_receives_identity (entry : Entry) (chain : List Frame) (p : Payload) (v : JsVal)
-    (hp : p = .jsThrow v ∨ p = .natPanicVal v) (hrw : ∀ f ∈ chain, f.rewraps = false)
+    (hp : p = .jsThrow v ∨ p = .natPanicVal v) (hrw : ∀ f ∈ chain, f.rewraps = false ∧ f.replaces = false)
     (hu : v.goErrValue = none ∨ ∀ f ∈ chain, f.unwraps = false) :
     ∀ l ∈ (hostRun entry chain p).log, ∀ w, (l.kind = .caught w ∨ l.kind = .asyncReject w) → w = v := by
   have hc : Carries v p.flow := by
@@ -52,6 +52,18 @@ theorem catch_receives_identity (entry : Entry) (chain : List Frame) (p : Payloa
   intro l hl w hw
   rcases hostRun_log_ok entry chain p hc hrw hu l hl with h | h | h | h <;>
     rcases hw with hw | hw <;> rw [h] at hw <;> cases hw <;> rfl
+
+/-- The code that exists: `Runtime.ForOf` calls the iterator's `return()` unguarded after the step callback threw,
+so an exception thrown by `return()` REPLACES the original one (ECMA-262 IteratorClose: the original throw
+completion wins; goja's own `for…of` statement does that).  Known finding C14 `forof-return-replaces-exception`,
+patch in fixes/.  This is why `Frame.swallows` (hypothesis `hsw` of the identity theorems) includes the `fot` frame.
+Negation of "identity through ForOf" on a concrete witness. -/
+theorem forof_return_replaces_exception_witness :
+    ¬ (∀ (v : JsVal) (ex : Exc), (hostRun .runString [.fot] (.jsThrow v)).host = .err (.exc ex) → ex.val = v) := by
+  intro h
+  have := h (.obj 1) ⟨.freshErr .error .other, .other⟩ (by decide)
+  revert this
+  decide
 
 /-- Native frames that wrap the error (`fmt.Errorf("%w", err)`) allowed, any number, mixed with everything else:
 the host's error still reaches, by repeated errors.Unwrap, an *Exception whose Value() is `v`. -/
